@@ -264,6 +264,18 @@ func (e *Env) Generate(v Variant) (*GenResult, error) {
 			return nil, err
 		}
 		params = append([]string{"config=" + p}, params...)
+	case "mistypedlist", "mistypedbool", "mistypedmap":
+		// well-formed YAML that cannot be PARSED INTO the configuration: a value of the wrong type for a known option
+		bad := map[string]string{
+			"mistypedlist": "exclude_fields: Root.Extra\n",
+			"mistypedbool": "sort: sometimes\n",
+			"mistypedmap":  "computed_fields:\n  Root.Str: true\n",
+		}[v.C.Fault]
+		p := filepath.Join(vdir, "config.yaml")
+		if err := ioutil.WriteFile(p, []byte(yaml+bad), 0o644); err != nil {
+			return nil, err
+		}
+		params = append([]string{"config=" + p}, params...)
 	default:
 		p := filepath.Join(vdir, "config.yaml")
 		if err := ioutil.WriteFile(p, []byte(yaml), 0o644); err != nil {
